@@ -219,7 +219,8 @@ func (t *RuntimeType) Parameters() []px.Value {
 	}
 	ps := make([]px.Value, 0, 2)
 	ps = append(ps, stringValue(t.runtime))
-	if t.name != `` {
+	if t.name != `` || t.pattern != nil {
+		// the pattern is the third parameter: it cannot follow the runtime directly
 		ps = append(ps, stringValue(t.name))
 	}
 	if t.pattern != nil {
